@@ -55,7 +55,7 @@ theorem re_inner_self (x : E) : (⟪x, x⟫).re = ‖x‖ ^ 2 := inner_self_eq_n
 theorem re_inner_self_pos {x : E} (hx : x ≠ 0) : 0 < (⟪x, x⟫).re := by
   rw [re_inner_self]; exact pow_pos (norm_pos_iff.mpr hx) 2
 
-theorem CGState.ext' {K V : Type*} {a b : CGState K V} (hx : a.x = b.x) (hr : a.r = b.r)
+theorem CGState.ext_fields {K V : Type*} {a b : CGState K V} (hx : a.x = b.x) (hr : a.r = b.r)
     (hp : a.p = b.p) (hrr : a.rr = b.rr) : a = b := by
   cases a; cases b; simp_all
 
